@@ -35,6 +35,23 @@ def special_progs(rng):
     out.append(P(synth.mkset(0, [], [mk(1, 2, [])]), [0], 0, "unused:out-is-arg+provider"))
     out.append(P(synth.mkset(0, [], [], [{"id": 1, "out": 2}]), [0], 0, "unused:out-is-arg+value"))
     out.append(P(synth.mkset(0, [synth.mkset(1, [], [mk(1, 2, [])])]), [0], 0, "unused:out-is-arg+set"))
+    # pass-through injectors: the result is an argument, directly or through a binding, while an earlier argument's
+    # type also implements the interface
+    q = P(synth.mkset(0, [], [], [], [], [{"id": 1, "iface": 0, "conc": 4}]), [2, 4], 0, "none:pass-through-bound", cleanup=False, err=False)
+    q["extra_impl"] = {1: [0]}
+    out.append(q)
+    q = P(synth.mkset(0, [], [], [], [], [{"id": 1, "iface": 0, "conc": 5}]), [3, 5], 0, "none:pass-through-bound-ptr", cleanup=True, err=True)
+    q["extra_impl"] = {1: [0]}
+    out.append(q)
+    q = P(synth.mkset(0), [2, 0], 0, "none:pass-through-iface-arg")
+    q["kinds"] = {0: "iface"}; q["extra_impl"] = {1: [0]}
+    out.append(q)
+    # two anonymous inline sets in one Build, one of them contributing nothing
+    sa = synth.mkset(1, [], [mk(1, 0, [])]); sb = synth.mkset(2, [], [mk(2, 2, [])])
+    q = P(synth.mkset(0, [sa, sb]), [], 0, "unused:inline-set")
+    for x in q["tree"]["imports"]:
+        x["inline"] = True; x["pkg"] = 0
+    out.append(q)
     # binding direct in Build, concrete type reached before the interface
     out.append(P(synth.mkset(0, [], [mk(1, 3, []), mk(2, 4, [3, 0])], [], [], [{"id": 1, "iface": 0, "conc": 3}]), [], 4, "none:concrete-first"))
     out.append(P(synth.mkset(0, [], [mk(1, 3, []), mk(2, 4, [6, 0]), mk(3, 6, [3])], [], [], [{"id": 1, "iface": 0, "conc": 3}]), [], 4, "none:concrete-deep"))
@@ -97,6 +114,12 @@ def gen_progs(rng, n, pid):
             opts["unexported_p"] = 0.3
         if pid in ("C14", "C01"):
             opts["names_p"] = 0.9 if pid == "C14" else 0.5
+        if pid in ("C13", "C01", "C10", "C15"):
+            opts["same_pkg_p"] = 0.35
+        if pid in ("C05", "C10"):
+            opts["dupset_p"] = 0.08
+        if pid in ("C08", "C10"):
+            opts["inline_p"] = 0.5
         p = prog.make_prog(rng, opts=opts)
         why = prog.renderable(p)
         if why:
@@ -114,7 +137,7 @@ def prog_oracle(pid, p, r, o):
         msgs.append("wire crashed or hung on this type-correct program: " + o["crash"][:300])
         return msgs
     accepted = bool(o["generated"])
-    ds = synth.parse_errors(tree, o["errors"], parse_t=gencase.ptid_for(r), strip=gencase.strip_msg) if not accepted else []
+    ds = synth.parse_errors(tree, o["errors"], parse_t=gencase.ptid_for(r), strip=gencase.strip_for(r)) if not accepted else []
     set_errs = [d for d in ds if d[0] in ("DMulti", "DBindMissing", "DCycle", "DItem", "DUnparsed")]
     solve_errs = [d for d in ds if d[0] == "DNoProvider" or d[0].startswith("DUnused")]
     inj_errs = [d for d in ds if d[0] in ("DNeedsCleanup", "DNeedsErr", "DValueAccess")]
@@ -127,12 +150,12 @@ def prog_oracle(pid, p, r, o):
         bad = [v["id"] for x in spec.all_sets(tree) for v in x["values"] if v.get("unexported") and v["out"] in seen_t]
         if bad:
             msgs.append("value expressions %s mention an unexported field of another package, yet generation succeeded" % bad)
-    if pid in ("C01", "C02", "C03", "C04", "C14") and accepted:
+    if accepted:
         if "build_error" in o:
             msgs.append("wire gen succeeded but the package does not compile: " + o["build_error"][:400])
         if "readback" in o and o["readback"].get("error"):
             msgs.append("the generated file does not parse: " + o["readback"]["error"][:300])
-        elif "readback" in o:
+        elif "readback" in o and pid in ("C01", "C02", "C03", "C04", "C14"):
             fn = [f for f in (o["readback"].get("funcs") or []) if f["name"] == "Inject"]
             if len(fn) != 1:
                 msgs.append("expected exactly one generated implementation of Inject, found %d" % len(fn))
@@ -160,6 +183,7 @@ def eng_prog(pid, tier, wd, known, replay=None):
         rp = replay["input"]["prog"]
         rp["kinds"] = {int(k): v for k, v in (rp.get("kinds") or {}).items()}
         rp["extra_fields"] = {int(k): v for k, v in (rp.get("extra_fields") or {}).items()}
+        rp["extra_impl"] = {int(k): v for k, v in (rp.get("extra_impl") or {}).items()}
         progs, skipped = [rp], {}
     else:
         n = 260 if tier == "quick" else 2500
